@@ -23,6 +23,7 @@ type Op struct {
 	DS    uint64 `json:"dataseed,omitempty"`
 	Off   uint64 `json:"off,omitempty"`
 	Len   uint64 `json:"len,omitempty"`
+	Nil   bool   `json:"nil_slice,omitempty"` // append/atomic: pass a nil slice (N must be 0)
 }
 
 func (o Op) String() string {
@@ -32,6 +33,9 @@ func (o Op) String() string {
 	case "create", "open":
 		return fmt.Sprintf("%s(%q,%q)->fd%d", o.K, o.Dir, o.Name, o.FD)
 	case "append":
+		if o.Nil {
+			return fmt.Sprintf("append(fd%d,nil)", o.FD)
+		}
 		return fmt.Sprintf("append(fd%d,%dB#%x)", o.FD, o.N, o.DS&0xffff)
 	case "close":
 		return fmt.Sprintf("close(fd%d)", o.FD)
@@ -42,6 +46,9 @@ func (o Op) String() string {
 	case "link":
 		return fmt.Sprintf("link(%q,%q->%q,%q)", o.Dir, o.Name, o.Dir2, o.Name2)
 	case "atomic":
+		if o.Nil {
+			return fmt.Sprintf("atomiccreate(%q,%q,nil)", o.Dir, o.Name)
+		}
 		return fmt.Sprintf("atomiccreate(%q,%q,%dB#%x)", o.Dir, o.Name, o.N, o.DS&0xffff)
 	}
 	return o.K
@@ -63,6 +70,9 @@ func historyHash(ops []Op) string {
 
 // opData regenerates the payload of an append/atomic op from its seed.
 func opData(o Op) []byte {
+	if o.Nil {
+		return nil
+	}
 	if o.N == 0 {
 		return []byte{}
 	}
@@ -90,6 +100,11 @@ type c12gen struct {
 	nextFD int
 	max    int
 	pats   map[string]int
+	// pool N: after a call that adds or removes a name, List its directory
+	// with this probability (percent); nilData: empty payloads are sometimes nil
+	listAfter int
+	nilData   bool
+	inList    bool
 }
 
 func (g *c12gen) full() bool { return len(g.ops) >= g.max }
@@ -104,6 +119,20 @@ func (g *c12gen) emit(o Op) bool {
 		panic(fmt.Sprintf("generator emitted an invalid op %v: %v", o, err))
 	}
 	g.ops = append(g.ops, o)
+	if g.listAfter > 0 && !g.inList {
+		switch o.K {
+		case "create", "atomic", "link", "delete":
+			g.inList = true
+			if g.rng.Chance(g.listAfter) {
+				d := o.Dir
+				if o.K == "link" {
+					d = o.Dir2
+				}
+				g.emit(Op{K: "list", Dir: d})
+			}
+			g.inList = false
+		}
+	}
 	return true
 }
 
@@ -232,6 +261,9 @@ func (g *c12gen) read(fd int) bool {
 
 func (g *c12gen) appendTo(fd int) bool {
 	n, ds := g.data()
+	if g.nilData && n == 0 && g.rng.Bool() {
+		return g.emit(Op{K: "append", FD: fd, Nil: true})
+	}
 	return g.emit(Op{K: "append", FD: fd, N: n, DS: ds})
 }
 
@@ -298,6 +330,9 @@ func (g *c12gen) opLink() bool {
 
 func (g *c12gen) opAtomic() bool {
 	n, ds := g.data()
+	if g.nilData && n == 0 && g.rng.Bool() {
+		return g.emit(Op{K: "atomic", Dir: g.dir(), Name: g.name(), Nil: true})
+	}
 	return g.emit(Op{K: "atomic", Dir: g.dir(), Name: g.name(), N: n, DS: ds})
 }
 
@@ -594,8 +629,17 @@ func genHistory(seed int64, poolB bool, idx int) ([]Op, map[string]int) {
 	for _, d := range g.dirs {
 		g.emit(Op{K: "mkdir", Dir: d})
 	}
+	g.runMix(nil)
+	return g.ops, g.pats
+}
+
+// runMix draws weighted patterns until the history is full, then closes most
+// of the descriptors that are still open.
+func (g *c12gen) runMix(extra []c12pat) {
+	rng, poolB := g.rng, g.poolB
+	pats := append(append([]c12pat(nil), c12pats...), extra...)
 	total := 0
-	for _, p := range c12pats {
+	for _, p := range pats {
 		if !p.poolB || poolB {
 			total += p.weight
 		}
@@ -603,7 +647,7 @@ func genHistory(seed int64, poolB bool, idx int) ([]Op, map[string]int) {
 	stuck := 0
 	for !g.full() && stuck < 50 {
 		x := rng.Intn(total)
-		for _, p := range c12pats {
+		for _, p := range pats {
 			if p.poolB && !poolB {
 				continue
 			}
@@ -626,7 +670,6 @@ func genHistory(seed int64, poolB bool, idx int) ([]Op, map[string]int) {
 			g.emit(Op{K: "close", FD: fd})
 		}
 	}
-	return g.ops, g.pats
 }
 
 func permute(rng *core.Rng, n int) []int {
